@@ -358,7 +358,34 @@ func paramPerm(fn *ssa.Function) []int {
 	loadBaseline()
 	pkg, recv, _ := funcKey(fn)
 	b, ok := baselineFuncs[pkg+"|"+recv+"|"+cname(fn)]
-	if !ok || len(b.Params) != len(fn.Params) || len(b.PTypes) != len(fn.Params) {
+	if !ok || len(b.PTypes) != len(b.Params) {
+		return nil
+	}
+	if len(fn.Params) > len(b.Params) {
+		// parameters were added (a value the helper used to compute is now handed in): the known ones are found by
+		// name within their type; anything less certain is "a new function"
+		out := make([]int, len(b.Params))
+		used := map[int]bool{}
+		for i, bn := range b.Params {
+			found := -1
+			for j, p := range fn.Params {
+				if !used[j] && p.Name() == bn && ptypeString(p) == b.PTypes[i] {
+					found = j
+				}
+			}
+			if found < 0 && i == 0 && fn.Signature.Recv() != nil && ptypeString(fn.Params[0]) == b.PTypes[0] {
+				found = 0 // a renamed receiver
+			}
+			if found < 0 {
+				return nil
+			}
+			used[found] = true
+			out[i] = found
+		}
+		perm = out
+		return perm
+	}
+	if len(b.Params) != len(fn.Params) {
 		return nil
 	}
 	bGroups, cGroups := map[string][]int{}, map[string][]int{}
@@ -385,11 +412,28 @@ func paramPerm(fn *ssa.Function) []int {
 				sameNames = false
 			}
 		}
-		for k, i := range bi {
-			if sameNames {
+		if sameNames {
+			for _, i := range bi {
 				out[i] = byName[b.Params[i]]
+			}
+			continue
+		}
+		// names kept by both sides are matched by name, the rest in order
+		taken := map[int]bool{}
+		rest := []int{}
+		for _, i := range bi {
+			if j, ok := byName[b.Params[i]]; ok {
+				out[i] = j
+				taken[j] = true
 			} else {
-				out[i] = ci[k]
+				rest = append(rest, i)
+			}
+		}
+		k := 0
+		for _, j := range ci {
+			if !taken[j] && k < len(rest) {
+				out[rest[k]] = j
+				k++
 			}
 		}
 	}
@@ -418,12 +462,17 @@ func bargs[T any](callee *ssa.Function, args []T, withRecv bool) []T {
 	if !withRecv && origin(callee).Signature.Recv() != nil {
 		off = 1
 	}
-	if len(args)+off != len(perm) {
+	if len(args)+off < len(perm) {
 		return args
 	}
-	out := make([]T, len(args))
-	for i := range args {
-		out[i] = args[perm[i+off]-off]
+	// (with added parameters: the arguments of the known ones, in the order the rules know)
+	out := make([]T, len(perm)-off)
+	for i := range out {
+		j := perm[i+off] - off
+		if j < 0 || j >= len(args) {
+			return args
+		}
+		out[i] = args[j]
 	}
 	return out
 }
